@@ -6,9 +6,12 @@ ground facts to a random torch tensor. Each modelled operation is applied throug
   * structural operations (no assumed contract: indexing, slicing stores, transpose, view / flatten incl. the row-major split of two
     merged dimensions, expand, unsqueeze, cat, stack, gather, scatter, arange, where, masked_fill, comparisons, arithmetic, clamp,
     one_hot, triu / tril): every element of the model's result, evaluated under the ground facts, must EQUAL torch's element;
-  * operations with an assumed contract (sum, matmul, any, min along a dimension, top-k, softmax, pow): "ground facts + the contract's
+  * operations with an assumed contract (sum, matmul, any, min / max along a dimension or over all elements, top-k, sort, softmax, pow):
+    "ground facts + the contract's
     assumptions + model result = torch's result" must be SATISFIABLE, i.e. the contract admits what torch computes (for the
-    recurrence contracts all instances over the concrete extent are supplied, so the query is quantifier-free).
+    recurrence contracts all instances over the concrete extent are supplied, so the query is quantifier-free);
+  * the compaction contract of masked_select / masked_scatter (per-dimension counters): with all instances it must DETERMINE torch's
+    result (negation unsatisfiable) and must not be contradictory.
 
 A disagreement is an engine error (exit 3). Run as guard clause `<property>.guard.symbolic_shape_contracts` by every check that has a
 symbolic-shape (P) clause over tensors.
@@ -405,7 +408,7 @@ def guard(ctx):
     ctx._sym_contracts_checked = True
     n, bad = run(seed=ctx.seed, rounds=2 if ctx.quick else 6)
     c = core.Clause(name="%s.guard.symbolic_shape_contracts" % ctx.prop, kind="guard", status="ok" if not bad else "error", evaluations=n,
-                    text="the symbolic-shape tensor layer (vf/pyvc/symtensor.py) at concrete small sizes against real torch: structural operations equal torch element-wise; the assumed contracts (sum, matmul, any, min, top-k, pow; softmax natively) admit what torch computes",
+                    text="the symbolic-shape tensor layer (vf/pyvc/symtensor.py) at concrete small sizes against real torch: structural operations equal torch element-wise; the assumed contracts (sum incl. integer sums, matmul, any with its witness form, min / max along a dimension and over all elements, top-k, pow, sort; softmax natively) admit what torch computes; the row-major compaction contract of masked_select / masked_scatter determines torch's result and is not contradictory",
                     detail="%d disagreements%s" % (len(bad), (" first: %s" % bad[0][:300]) if bad else ""))
     ctx.add_clause(c)
     if bad:
